@@ -253,6 +253,24 @@ class Gen:
             out: dict = {}
             self.obj_into(s, out, depth, top=True)
             return out
+        if k == "disc":
+            alt = c.pick(list(s.a), "alt")
+            while alt.k in ("ref", "ann", "newtype"):
+                alt = self.defs[alt.opt("name")] if alt.k == "ref" else alt.a[0]
+            out = {}
+            self.obj_into(alt, out, depth, top=True)
+            keys = [key for key, _ in s.opt("mapping")]
+            cands = [("k", key) for key in keys]
+            if self.budget > 0:
+                cands += [("absent", None), ("k", "zz"), ("k", 1), ("k", ["x"])]
+            how, key = c.pick(cands, "disc")
+            if how == "k":
+                if key not in keys:
+                    self.budget -= 1
+                out[self.opts.aliaser(s.opt("alias"))] = key
+            else:
+                self.budget -= 1
+            return out
         raise ValueError(k)
 
     def non_member(self, kind, vals):
@@ -461,7 +479,7 @@ class Val:
                 return Undefined
             return self.val(s.a[0], depth, cs)
         if k == "union":
-            return self.val(c.pick(list(s.a), "alt"), depth, cs)
+            return self.val(c.pick([a for a in s.a if a.k != "unsup"], "alt"), depth, cs)
         if k in ("list", "seq", "set", "fset", "vtuple"):
             n = 0 if depth <= 0 else c.choice(self.b.width + 1, "len")
             self.hashed += k in ("set", "fset")
@@ -500,6 +518,8 @@ class Val:
             return getattr(cls, "m%d" % c.choice(len(s.a), "enum"))
         if k == "obj":
             return self.obj(s, depth, cs)
+        if k == "disc":
+            return self.val(c.pick(list(s.a), "alt"), depth, cs)
         raise ValueError(k)
 
     def map_keys(self, ks: Sp):
@@ -522,6 +542,9 @@ class Val:
         c = self.ctx
         kind = s.opt("kind")
         vals = {}
+        if s.opt("tagged"):
+            f = c.pick(list(s.a), "tag")
+            return self.prog.cls(s.opt("name"))(**{f.name: self.val(f.sp.a[0], depth - 1)})
         for f in s.a:
             if kind == "dataclass" and not f.init and not f.initvar:
                 continue
